@@ -28,10 +28,13 @@ ASSUMPTIONS = [
 
 PROFILE = scenario.profile(maxD=3, extra_budget=(5, 45), cons_x0=("margin",), p_cons=0.15, p_seed_none=0.0, p_x0_none=0.3,
                            noise_modes=("none", "auto", "declared", "specified"), specified_spellings=("both", "alone"),
-                           max_iter_choices=(None, None, 4), tol_mesh_choices=(None,), extra_options=False)
+                           max_iter_choices=(None, None, 4), tol_mesh_choices=(None,), extra_options=False, p_seed_numpy=0.25,
+                           # non-default search settings: state cached across instances would show here
+                           extra_opts=(("n_search_iter", (3,), 0.2), ("n_search", (2**10, 2**11), 0.15)))
 FOREIGN = scenario.profile(maxD=4, extra_budget=(0, 12), cons_x0=("margin",), p_cons=0.1, p_seed_none=0.5, p_x0_none=0.2,
                            noise_modes=("none", "declared", "specified"), specified_spellings=("both",), max_iter_choices=(2, None),
-                           tol_mesh_choices=(None,), extra_options=False)
+                           tol_mesh_choices=(None,), extra_options=False,
+                           extra_opts=(("n_search_iter", (3, 4), 0.3), ("n_search", (2**9, 2**11), 0.3), ("es_beta", (0.5,), 0.2)))
 N = {"quick": 96, "thorough": 1500}
 
 
